@@ -40,6 +40,9 @@ pub struct Case {
     /// (target, index of the parent bookmark in this list)
     pub bookmarks: Vec<(ObjectId, Option<usize>)>,
     pub start: u32,
+    /// further start values: the document is renumbered again, once per entry, after the call with `start` (family Z:
+    /// the state a call leaves is the input of the next one); empty everywhere else
+    pub then: Vec<u32>,
     /// "" for the main family; a suffix put on obligation names for the sub-families that stretch the reading of the
     /// quantifier (start 0, start near u32::MAX, two objects with one number and different generations)
     pub tag: String,
@@ -134,6 +137,7 @@ fn case_json_rest(c: &Case, objects: Vec<Value>) -> Value {
         "objects": objects,
         "bookmarks": c.bookmarks.iter().map(|(p, par)| json!({"page": [p.0, p.1], "parent": par})).collect::<Vec<_>>(),
         "start": c.start,
+        "then": c.then,
         "tag": c.tag,
         "label": c.label,
     })
@@ -148,13 +152,14 @@ pub fn case_from_json(v: &Value) -> Case {
         bookmarks: v["bookmarks"].as_array().cloned().unwrap_or_default().iter()
             .map(|e| ((e["page"][0].as_u64().unwrap_or(0) as u32, e["page"][1].as_u64().unwrap_or(0) as u16), e["parent"].as_u64().map(|p| p as usize))).collect(),
         start: v["start"].as_u64().unwrap_or(1) as u32,
+        then: v["then"].as_array().cloned().unwrap_or_default().iter().map(|x| x.as_u64().unwrap_or(1) as u32).collect(),
         tag: v["tag"].as_str().unwrap_or("").to_string(),
         label: v["label"].as_str().unwrap_or("").to_string(),
     }
 }
 
 fn describe(c: &Case) -> String {
-    let mut t = format!("start={} trailer={:?} bookmarks={:?} objs=[", c.start, c.trailer, c.bookmarks);
+    let mut t = format!("start={} then={:?} trailer={:?} bookmarks={:?} objs=[", c.start, c.then, c.trailer, c.bookmarks);
     for (id, o) in &c.objects { t.push_str(&format!("{} {}: {:?}; ", id.0, id.1, o)); }
     t.push(']');
     if t.len() > 700 { t.truncate(700); }
@@ -311,7 +316,8 @@ fn model_pages(doc: &Document) -> Option<Vec<ObjectId>> {
         true
     }
     let root = match doc.trailer.get(b"Root") { Ok(Object::Reference(id)) => *id, _ => return Some(vec![]) };
-    let cat = match resolve(doc, doc.objects.get(&root)?)? { Object::Dictionary(d) => d, _ => return Some(vec![]) };
+    // a Root that resolves to nothing (or not to a dictionary) means no pages, not a cyclic tree
+    let cat = match doc.objects.get(&root).and_then(|o| resolve(doc, o)) { Some(Object::Dictionary(d)) => d, _ => return Some(vec![]) };
     let pages = match cat.get(b"Pages") { Ok(Object::Reference(id)) => *id, _ => return Some(vec![]) };
     let mut out = vec![];
     let mut path = vec![pages];
@@ -434,23 +440,47 @@ fn quiet<T>(f: impl FnOnce() -> T) -> T {
     r
 }
 
-/// run the real library on one case and evaluate the postcondition
+/// the sub-family tags that follow from a document's ids and a start value alone (the enumeration hands the same tags
+/// to `Case::tag` for the first call; for a later call of a history they are computed from the state that call starts from)
+fn tag_of(ids: &[ObjectId], start: u32) -> String {
+    let mut t = String::new();
+    if ids.iter().enumerate().any(|(i, a)| ids[..i].iter().any(|b| b.0 == a.0)) { t.push_str("[same-number-gens]"); }
+    if ids.iter().any(|i| i.0 == 0) { t.push_str("[object-number-0]"); }
+    if start == 0 { t.push_str("[start=0]"); } else if start > u32::MAX / 2 { t.push_str("[start-near-u32-max]"); }
+    t
+}
+
+/// run the real library on one case and evaluate the postcondition: once per call of the history (`start`, then every
+/// entry of `then`), each call against the document as the previous call left it
 pub fn check_case(c: &Case) -> Vec<(String, String)> {
-    let before = build_doc(c);
-    let mut after = before.clone();
-    let start = c.start;
-    let r = catch(|| {
-        if start == 1 { after.renumber_objects(); } else { after.renumber_objects_with(start); }
-    });
-    let mut fails = match r {
-        Err(p) => vec![("no-panic".to_string(), format!("renumber_objects_with({}) panicked: {}", start, p))],
-        Ok(()) => match catch(|| postcondition(&before, &after, start)) {
-            Ok(f) => f,
-            Err(p) => vec![("oracle-no-panic".to_string(), format!("evaluating the postcondition panicked: {}", p))],
-        },
-    };
-    for f in fails.iter_mut() { f.0.push_str(&c.tag); }
-    fails
+    let mut before = build_doc(c);
+    let mut out: Vec<(String, String)> = vec![];
+    let mut done: Vec<u32> = vec![];
+    for (k, start) in std::iter::once(c.start).chain(c.then.iter().copied()).enumerate() {
+        let mut after = before.clone();
+        let r = catch(|| {
+            if start == 1 { after.renumber_objects(); } else { after.renumber_objects_with(start); }
+        });
+        let panicked = r.is_err();
+        let mut fails = match r {
+            Err(p) => vec![("no-panic".to_string(), format!("renumber_objects_with({}) panicked: {}", start, p))],
+            Ok(()) => match catch(|| postcondition(&before, &after, start)) {
+                Ok(f) => f,
+                Err(p) => vec![("oracle-no-panic".to_string(), format!("evaluating the postcondition panicked: {}", p))],
+            },
+        };
+        let tag = if k == 0 { c.tag.clone() } else { format!("{}[call-{}]", tag_of(&before.objects.keys().copied().collect::<Vec<_>>(), start), k + 1) };
+        for f in fails.iter_mut() {
+            f.0.push_str(&tag);
+            if k > 0 { f.1 = format!("call {} (start {}) on the document left by renumbering with start(s) {:?}, object ids {:?}: {}", k + 1, start, done, before.objects.keys().collect::<Vec<_>>(), f.1); }
+        }
+        out.append(&mut fails);
+        // a call that panicked leaves no defined state to go on from
+        if panicked { break; }
+        done.push(start);
+        before = after;
+    }
+    out
 }
 
 // ---------------------------------------------------------------------------------------------------------------------
@@ -500,14 +530,19 @@ fn instantiate(t: &Template, bm: usize, ids: &[ObjectId], dang: &[ObjectId], sta
         trailer: inst_dict(&t.trailer, ids, dang),
         bookmarks: t.bookmark_sets[bm].iter().map(|(p, par)| (map_id(*p, ids, dang), *par)).collect(),
         start,
+        then: vec![],
         tag: tag.to_string(),
         label: t.label.clone(),
     }
 }
 
-/// the three id sets for n objects (sorted): dense from 1; sparse with non-zero generations; one with number clashes
+/// the id sets for n objects (sorted): dense from 1; sparse with non-zero generations; one with number clashes; and the
+/// two with object number 0 in use (family Z): dense from 0 (what a renumbering from 0 leaves), sparse with number 0 at
+/// generation 1 (so that `0 0 R` dangles although number 0 is taken)
 fn id_set(which: usize, n: usize) -> Vec<ObjectId> {
     match which {
+        3 => (0..n as u32).map(|k| (k, 0)).collect(),
+        4 => { let nums = [0u32, 2, 3, 5, 8, 9, 12, 13]; let gens = [1u16, 0, 1, 0, 2, 0, 1, 0]; (0..n).map(|i| (nums[i], gens[i])).collect() }
         0 => (1..=n as u32).map(|k| (k, 0)).collect(),
         1 => { let nums = [2u32, 3, 5, 8, 9, 12, 13, 20]; let gens = [0u16, 1, 0, 0, 2, 0, 1, 0]; (0..n).map(|i| (nums[i], gens[i])).collect() }
         _ => { let all = [(1u32, 0u16), (3, 0), (3, 1), (4, 0), (6, 0), (6, 1), (7, 0), (9, 0)]; all[..n].to_vec() }
@@ -526,6 +561,16 @@ fn dangling_for(ids: &[ObjectId]) -> Vec<ObjectId> {
     while ids.contains(&(first.0, g)) { g += 1; }
     let max = ids.iter().map(|i| i.0).max().unwrap_or(0);
     vec![(k, 0), (first.0, g), (max + 3, 0)]
+}
+
+/// family Z: the dangling ids with object number 0 first: number 0 at the smallest generation that is absent ((0,0) unless
+/// the id set has it), then the three of `dangling_for`
+fn dangling_zero_first(ids: &[ObjectId]) -> Vec<ObjectId> {
+    let mut g = 0u16;
+    while ids.contains(&(0, g)) { g += 1; }
+    let mut v = vec![(0, g)];
+    v.extend(dangling_for(ids));
+    v
 }
 
 fn permutations(n: usize) -> Vec<Vec<usize>> {
@@ -633,8 +678,8 @@ impl SubB {
     }
     fn per_code(&self) -> u64 { (self.perms().len() * self.idsets.len() * self.starts.len() * self.rots.len() * self.trailers.len() * self.bms.len()) as u64 }
     fn describe(&self) -> String {
-        format!("n={} objects, {} reference position(s) per object each in {{none, every object, {} dangling id(s)}} ({} graphs) x {} slot->id permutations x id sets {:?} x starts {:?} x container rotations {:?} x trailer shapes {:?} x bookmark sets {:?}",
-            self.n, if self.two_pos { 2 } else { 1 }, self.ndang, self.codes(), self.perms().len(), self.idsets, self.starts, self.rots, self.trailers, self.bms)
+        format!("n={} objects, {} reference position(s) per object each in {{none, every object, {} dangling id(s)}} ({} graphs) x {} slot->id permutations x id sets {:?} x starts {} x container rotations {:?} x trailer shapes {:?} x bookmark sets {:?}",
+            self.n, if self.two_pos { 2 } else { 1 }, self.ndang, self.codes(), self.perms().len(), self.idsets, if self.starts.is_empty() { "(the histories)".to_string() } else { format!("{:?}", self.starts) }, self.rots, self.trailers, self.bms)
     }
 }
 
@@ -767,6 +812,49 @@ enum Block {
     E { sub: usize, code: u64 },
     /// deep nesting: depth x container shape x single/ladder x location; inner: targets x id sets x permutations x starts
     D { levels: usize, shape: usize, ladder: bool, loc: usize },
+    /// family Z on a graph: sub-family x edge code; inner: everything else, histories included
+    ZG { sub: usize, code: u64 },
+    /// family Z on a page tree: template x id set x permutation; inner: histories x bookmark sets
+    ZA { t: usize, idset: usize, perm: Vec<usize> },
+}
+
+// ---- family Z: object number 0, and histories of calls -----------------------------------------------------------------
+//
+// "Sparse and colliding old/new numbers ... dangling references ... x all start values": the other families draw old
+// numbers and dangling numbers from 1 upwards, and every case is one call on a freshly built document. Number 0 is a number
+// like any other for the in-memory document (a start value of 0 puts an object there, `0 0 R` is the reference a PDF file
+// uses for "nothing"), and the document a call leaves is a document the next call must handle. Family Z therefore crosses
+//   * id sets with and without object number 0 in use (see `id_set` 3 and 4),
+//   * object number 0 as a dangling reference / bookmark target (`dangling_zero_first`),
+//   * start values 0, 1 (= renumber_objects), 2, 7, and
+//   * histories: every sequence of 1 or 2 (thorough: also 3) of these start values applied in a row, every call checked
+//     against the state the previous one left (so number 0 also occurs as an old number *because* of an earlier call),
+// on small graphs and small page trees. Sub-family tags are derived from the state a call starts from (`tag_of`).
+
+const Z_STARTS: [u32; 4] = [0, 1, 2, 7];
+fn z_idsets(thorough: bool) -> Vec<usize> { if thorough { vec![0, 1, 2, 3, 4] } else { vec![0, 1, 3, 4] } }
+fn z_histories(thorough: bool) -> Vec<Vec<u32>> {
+    let mut v: Vec<Vec<u32>> = vec![];
+    for a in Z_STARTS { v.push(vec![a]); }
+    for a in Z_STARTS { for b in Z_STARTS { v.push(vec![a, b]); } }
+    if thorough { for a in Z_STARTS { for b in Z_STARTS { for c in Z_STARTS { v.push(vec![a, b, c]); } } } }
+    v
+}
+fn z_max_tree_objs(thorough: bool) -> usize { if thorough { 5 } else { 4 } }
+fn z_subs(thorough: bool) -> Vec<SubB> {
+    let sub = |n: usize, two_pos: bool| SubB { n, two_pos, ndang: 2, all_perms: true, idsets: z_idsets(thorough), starts: vec![], rots: vec![0], trailers: vec![0, 1, 2, 3], bms: vec![0, 1] };
+    let mut v = vec![sub(1, true), sub(2, false)];
+    if thorough { v.push(sub(2, true)); v.push(sub(3, false)); }
+    v
+}
+/// the longest history applied to graph sub-family `si` of `z_subs` (the two large thorough ones stop at two calls)
+fn z_sub_hist_len(si: usize) -> usize { if si < 2 { 3 } else { 2 } }
+
+fn with_history(mut c: Case, h: &[u32], ids: &[ObjectId]) -> Case {
+    c.start = h[0];
+    c.then = h[1..].to_vec();
+    c.tag = tag_of(ids, h[0]);
+    c
 }
 
 fn extreme_starts(n: usize) -> Vec<(u32, &'static str)> {
@@ -864,9 +952,42 @@ fn eval(c: &Case, rep: &mut Report) {
     }
 }
 
-fn run_block(b: &Block, templates: &[Template], subs: &[SubB], ext_subs: &[SubB], starts_a: &[u32]) -> Report {
+fn run_block(b: &Block, templates: &[Template], subs: &[SubB], ext_subs: &[SubB], starts_a: &[u32], zsubs: &[SubB], zhist: &[Vec<u32>]) -> Report {
     let mut rep = Report::new("", false);
     match b {
+        Block::ZA { t, idset, perm } => {
+            let tp = &templates[*t];
+            let base = id_set(*idset, tp.objs.len());
+            let dang = dangling_zero_first(&base);
+            let ids: Vec<ObjectId> = perm.iter().map(|p| base[*p]).collect();
+            for h in zhist {
+                for bm in 0..tp.bookmark_sets.len() {
+                    let c = with_history(instantiate(tp, bm, &ids, &dang, 1, ""), h, &ids);
+                    eval(&c, &mut rep);
+                }
+            }
+        }
+        Block::ZG { sub, code } => {
+            let sb = &zsubs[*sub];
+            for rot in &sb.rots {
+                for tr in &sb.trailers {
+                    let tp = graph_template(sb, *code, *rot, *tr);
+                    for idset in &sb.idsets {
+                        let base = id_set(*idset, sb.n);
+                        let dang = dangling_zero_first(&base);
+                        for perm in sb.perms() {
+                            let ids: Vec<ObjectId> = perm.iter().map(|p| base[*p]).collect();
+                            for h in zhist.iter().filter(|h| h.len() <= z_sub_hist_len(*sub)) {
+                                for bm in &sb.bms {
+                                    let c = with_history(instantiate(&tp, *bm, &ids, &dang, 1, ""), h, &ids);
+                                    eval(&c, &mut rep);
+                                }
+                            }
+                        }
+                    }
+                }
+            }
+        }
         Block::A { t, idset, perm, extreme } => {
             let tp = &templates[*t];
             let n = tp.objs.len();
@@ -966,6 +1087,16 @@ pub fn run(thorough: bool) -> Report {
         if tp.objs.len() <= 4 { for idset in 0..2 { for perm in permutations(tp.objs.len()) { blocks.push(Block::A { t: ti, idset, perm, extreme: true }); } } }
     }
 
+    // family Z last of all: most of it is tagged
+    let zsubs = z_subs(thorough);
+    let zhist = z_histories(thorough);
+    for (si, sb) in zsubs.iter().enumerate() { for code in 0..sb.codes() { blocks.push(Block::ZG { sub: si, code }); } }
+    for idset in z_idsets(thorough) {
+        for (ti, tp) in templates.iter().enumerate() {
+            if tp.objs.len() <= z_max_tree_objs(thorough) { for perm in permutations(tp.objs.len()) { blocks.push(Block::ZA { t: ti, idset, perm }); } }
+        }
+    }
+
     // own pool: the library's walk, the oracle's walk, clone and drop all recurse once per container, so give the workers
     // a stack that is far larger than a nest of a few hundred containers needs
     let pool = rayon::ThreadPoolBuilder::new().stack_size(BIG_STACK).build().expect("thread pool");
@@ -973,7 +1104,7 @@ pub fn run(thorough: bool) -> Report {
         pool.install(|| {
             blocks
                 .par_iter()
-                .map(|b| run_block(b, &templates, &subs, &ext_subs, &starts_a))
+                .map(|b| run_block(b, &templates, &subs, &ext_subs, &starts_a, &zsubs, &zhist))
                 .reduce(|| Report::new("", false), merge_capped)
         })
     });
@@ -989,7 +1120,9 @@ pub fn run(thorough: bool) -> Report {
     bound.push_str(&format!("Family D (nesting depth of a reference position; 3 objects: catalog, holder, target string): a reference enclosed in L containers of one value, L in {{0..={}}} + {:?} (every depth far past the reader's limit of 32, then around powers of two), x container shapes {{{}}} (container k holds the integer k and container k+1) x {{only the innermost reference | additionally a reference in every container k, to target (k mod 5)}} x where the value lives {{{}}} x innermost reference -> {{{}}} x ALL 6 slot->id permutations x the 3 id sets of family A (n=3) x starts {:?}; for L=0 the value is the bare reference (one shape). ",
         dense, levels.iter().filter(|l| **l > dense).collect::<Vec<_>>(),
         (0..D_SHAPES).map(d_shape_name).collect::<Vec<_>>().join(" | "), (0..D_LOCS).map(d_loc_name).collect::<Vec<_>>().join(" | "), (0..D_TARGETS).map(d_target_name).collect::<Vec<_>>().join(" | "), starts_a));
-    bound.push_str("Families A, B and the extreme starts have at most 7 objects and nesting depth <= 4; family D nests up to the stated depth and runs (like replay) on threads with a 256 MiB stack; bookmark trees are acyclic, so no case can hang or overflow the stack; every library call and the oracle run under catch_unwind. Values nested deeper than 8 containers are recorded in failing inputs in a flat preorder form (keys obj_flat / trailer_flat).");
+    bound.push_str(&format!("Family Z (object number 0 as an old, a new and a dangling number; histories of calls): id sets {:?} (0, 1, 2 as in family A; 3 = dense from 0: (0,0),(1,0),..,(n-1,0), what a renumbering from 0 leaves; 4 = sparse with number 0 at generation 1: (0,1),(2,0),(3,1),(5,0),(8,2)) x ALL slot->id permutations x dangling ids {{first: object number 0 at the smallest absent generation, i.e. (0,0) unless it is an object, then (0,1); second: the smallest free number >= 1}} x histories = ALL sequences of {} start values from {:?} applied one after the other ({} histories; every call is checked against the document the previous call left, failures of call k >= 2 carry [call-k] and the tags of the state that call started from), on (i) graphs [{}] and (ii) every page-tree template of family A with <= {} objects x all its bookmark sets (these include the conventional (0,0) bookmark target, which on id set 3 is a live object). Cases with object number 0 in use are tagged [object-number-0], with start 0 [start=0]; the others (id sets 0,1, starts >= 1, one call) are untagged. The empty document is left out of Z (no ids or references to vary; its start 0 is among the extreme starts). ",
+        z_idsets(thorough), if thorough { "1, 2 or 3" } else { "1 or 2" }, Z_STARTS, zhist.len(), zsubs.iter().enumerate().map(|(i, s)| format!("{}, histories of at most {} calls", s.describe(), z_sub_hist_len(i).min(if thorough { 3 } else { 2 }))).collect::<Vec<_>>().join(" | "), z_max_tree_objs(thorough)));
+    bound.push_str("Families A, B, Z and the extreme starts have at most 7 objects and nesting depth <= 4; family D nests up to the stated depth and runs (like replay) on threads with a 256 MiB stack; bookmark trees are acyclic, so no case can hang or overflow the stack; every library call and the oracle run under catch_unwind. Values nested deeper than 8 containers are recorded in failing inputs in a flat preorder form (keys obj_flat / trailer_flat).");
     let rep = Report::new(&bound, true);
     let mut rep = merge_capped(rep, total);
     rep.obligations = 14;
